@@ -355,3 +355,11 @@ pub fn replay(case: &Value) -> Result<Option<Violation>, String> {
         _ => None,
     })
 }
+
+pub fn rerun(tier: Tier, seed: u64, run: u64) -> Option<Violation> {
+    let n_exh = match tier {
+        Tier::Quick => 160u64,
+        Tier::Thorough => 3000u64,
+    };
+    one_run(seed, run, run < n_exh).violation
+}
